@@ -54,3 +54,43 @@ func (w *World) fieldOfLoadViaD(v ssa.Value, depth int) (string, int, bool) {
 	}
 	return "", 0, false
 }
+
+// termContainsVia: the flow term of v (in its own function) contains the text
+// `needle` — or v is a parameter and that holds for the argument at every
+// static in-package call site (recursively): `e.registeredName(typ.Name())`
+// looks `typ.Name()` up in the name map exactly as the inlined
+// `e.nameMap[typ.Name()]` did.  A function that can be entered otherwise does
+// not resolve.
+func (w *World) termContainsVia(v ssa.Value, needle string, depth int) bool {
+	if in, ok := v.(ssa.Instruction); ok && in.Parent() != nil {
+		if containsStr(w.flow(in.Parent()).term(v).Key(), needle) {
+			return true
+		}
+	}
+	x, ok := v.(*ssa.Parameter)
+	if !ok || depth > 3 {
+		return false
+	}
+	g := x.Parent()
+	pi := -1
+	for i, p := range g.Params {
+		if p == x {
+			pi = i
+		}
+	}
+	if pi < 0 {
+		return false
+	}
+	if _, ok := w.staticCallersOf(g); !ok {
+		return false
+	}
+	n := 0
+	for _, e := range w.CG.Nodes[g].In {
+		c, ok := e.Site.(*ssa.Call)
+		if !ok || pi >= len(c.Call.Args) || !w.termContainsVia(c.Call.Args[pi], needle, depth+1) {
+			return false
+		}
+		n++
+	}
+	return n > 0
+}
